@@ -69,7 +69,7 @@ def solo_messages(kind, name, data, path, opts):
     return _SOLO[key]
 
 
-def run_mixed_case(seed, i, tier):
+def run_mixed_case(seed, i, tier, K=None, compare_schedules=False):
     """sources of different kinds in one run: shipped evtx + shipped journal + generated accounting file + generated text"""
     import c08
     import c09
@@ -159,7 +159,9 @@ def run_mixed_case(seed, i, tier):
         heads[si] += 1
     expected = bytes(expected)
     scn = core.Scenario([core.FileSpec(p, d, 1600000000) for (p, d, _) in srcs], opts + [p for (p, _, _) in srcs], None, "UTC")
-    K = 2 if tier == "quick" else 4
+    if K is None:
+        K = 2 if tier == "quick" else 4
+    ref = None
     for k in range(K):
         prng = core.rng_for(seed, PROP, i, "plan", k)
         plan = core.random_plan(prng, len(srcs), budget=6_000_000)
@@ -181,6 +183,13 @@ def run_mixed_case(seed, i, tier):
         cr.faults["schedule_perturbation"] += 1
         cr.nontrivial_keys.append(core.derive(0, "%s|%s" % (scn.digest(), tr.arrival_hash())))
         vs = mergecheck.evaluate(res, expected)
+        if compare_schedules:
+            if ref is None:
+                ref = (res.stdout, res.rc)
+            elif res.stdout != ref[0]:
+                vs.append(("stdout_differs_across_schedules", mergecheck.show_diff(res.stdout, ref[0])))
+            elif res.rc != ref[1]:
+                vs.append(("exit_status_differs_across_schedules", "exit %s vs %s" % (res.rc, ref[1])))
         for (cls, detail) in vs:
             rp = {"kind": "scenario", "scenario": scn.to_json() if sum(len(d) for (_, d, _) in srcs) < 3_000_000 else None,
                   "plan": plan.as_replay(tr).to_json(), "expected_b64": __import__("base64").b64encode(expected).decode(), "class": cls}
